@@ -734,4 +734,65 @@ theorem triangulate_convex_complete (ccw : Bool) (poly : Poly ℝ) (hn : 3 ≤ p
   rw [hl]; omega
 
 
+/-! ### convex polygons: the output is a fan -/
+/-- the fan from vertex `L` over the consecutive pairs of a list (all but the last pair) -/
+def fanAux (L : V ℝ) : Poly ℝ → List (Tri3 ℝ)
+  | a :: b :: c :: rest => (L, a, b) :: fanAux L (b :: c :: rest)
+  | _ => []
+
+theorem vAt_last_eraseIdx (poly : Poly ℝ) (h : 3 ≤ poly.length) :
+    vAt (poly.eraseIdx 0) ((poly.eraseIdx 0).length - 1) = vAt poly (poly.length - 1) := by
+  match poly, h with
+  | a :: b :: c :: rest, _ =>
+    simp only [List.eraseIdx_cons_zero, List.length_cons, vAt]
+    have : rest.length + 1 + 1 + 1 - 1 = (rest.length + 1 + 1 - 1) + 1 := by omega
+    rw [this, List.getD_cons_succ]
+
+/-- **on a convex polygon the loop emits the fan from the last vertex**, in order -/
+theorem convex_run_fan (ccw : Bool) : ∀ (fuel : Nat) (poly : Poly ℝ) (acc : List (Tri3 ℝ)),
+    ConvexPos ccw (pts poly) → poly.length ≤ fuel + 2 →
+    (clipRun fuel poly ccw acc).1 = acc ++ fanAux (vAt poly (poly.length - 1)) poly
+  | 0, poly, acc, _, hf => by
+    have : fanAux (vAt poly (poly.length - 1)) poly = [] := by
+      match poly, hf with
+      | [], _ => rfl
+      | [_], _ => rfl
+      | [_, _], _ => rfl
+    simp [clipRun, this]
+  | fuel + 1, poly, acc, hc, hf => by
+    simp only [clipRun]
+    split
+    · rename_i hlt
+      have : fanAux (vAt poly (poly.length - 1)) poly = [] := by
+        match poly, hlt with
+        | [], _ => rfl
+        | [_], _ => rfl
+        | [_, _], _ => rfl
+        | a :: b :: c :: r, h => exact absurd h (by simp)
+      simp [this]
+    · rename_i hlen
+      have hn : 3 ≤ poly.length := by omega
+      rw [convex_findEar ccw poly hn hc]
+      simp only []
+      rw [convex_run_fan ccw fuel (poly.eraseIdx 0) _ (by rw [pts_eraseIdx]; exact convex_tail ccw _ hc)
+        (by rw [List.length_eraseIdx, if_pos (by omega)]; omega), vAt_last_eraseIdx poly hn]
+      match poly, hn with
+      | a :: b :: c :: rest, _ =>
+        have h1 : ¬ (0 = rest.length + 1 + 1 + 1 - 1) := by omega
+        simp only [List.eraseIdx_cons_zero, List.append_assoc, List.singleton_append, fanAux, earAt, prevIdx,
+          nextIdx, List.length_cons, if_true, vAt, List.getD_cons_zero, h1, if_false, Nat.zero_add,
+          List.getD_cons_succ]
+
+/-- **C03 on convex polygons, functionally**: the output is exactly the fan `(lₙ₋₁, lₖ, lₖ₊₁)`,
+`k = 0 … n-3`, of the vertex labels -/
+theorem triangulate_convex_fan (ccw : Bool) (poly : Poly ℝ) (hn : 3 ≤ poly.length) (hc : ConvexPos ccw (pts poly)) :
+    triangulate poly = labels (fanAux (vAt poly (poly.length - 1)) poly) := by
+  have hr := convex_refCcw ccw poly hn hc
+  have h1 := clip_eq poly.length poly ccw ([] : List (Tri3 ℝ))
+  have h2 := convex_run_fan ccw poly.length poly [] hc (by omega)
+  simp only [labels, List.flatMap_nil, List.nil_append] at h1 h2
+  unfold triangulate
+  rw [hr, h1, h2]; rfl
+
+
 end ScadVerif.TriLemmas
